@@ -29,6 +29,10 @@ func runC01(c *Ctx) {
 	c01RootRelocation(c, "C01.4")
 	c11NewRoot(c, "C01.5")
 	c11MarkDirty(c, "C01.6")
+	ruleCatalogNameMatch(c, "C01.7")
+	c08FreshDecodeTarget(c, "C01.8")
+	c11SplitArithmetic(c, "C01.9")
+	ruleStaleDerived(c, "C01.10")
 }
 
 // leafCellSource: expression `S.field` where S has type *leafCell; returns key of S and the field name.
